@@ -20,7 +20,7 @@ PROPS = {
         "level": "proof",
         "harness": ["purediff", "gwrun"],
         "stages": [("pure", stage_pure, {"suites": ["pattern", "lcs", "ressub"], "n_quick": 6000, "n_thorough": 150000}),
-                   ("gw", stage_gw, {"profiles": [("reset", 800, 6000), ("accchurn", 300, 2000)]})],
+                   ("gw", stage_gw, {"profiles": [("reset", 700, 6000), ("resetf", 300, 2500), ("accchurn", 250, 2000)]})],
         "rule": "patterns/names over a token alphabet with wildcards, invalid tokens and byte mutations (names derived from the pattern "
                 "so matches are frequent); all pairs of collections up to length 3 over 2 value classes plus random edit-distance pairs "
                 "up to length 10 over <=5 classes of all four value kinds; direct-drive op sequences (events, reset start/answers incl. "
@@ -79,7 +79,7 @@ PROPS = {
         "level": "proof",
         "harness": ["gwrun", "purediff"],
         "stages": [("pure", stage_pure, {"suites": ["ressub"], "n_quick": 4000, "n_thorough": 60000}),
-                   ("gw", stage_gw, {"profiles": [("basic", 150, 1000), ("refs", 350, 3000), ("churn", 350, 3000), ("access", 200, 1500), ("scacc", 250, 2000), ("reset", 250, 1500), ("accrefs", 200, 1500), ("query", 150, 1000), ("legacy", 250, 2000), ("legacyacc", 150, 1000), ("scgraph", 250, 2000), ("wild", 0, 1500)]})],
+                   ("gw", stage_gw, {"profiles": [("basic", 150, 1000), ("refs", 350, 3000), ("churn", 350, 3000), ("access", 200, 1500), ("scacc", 250, 2000), ("reset", 250, 1500), ("accrefs", 200, 1500), ("query", 150, 1000), ("legacy", 250, 2000), ("legacyacc", 150, 1000), ("scgraph", 250, 2000), ("resetf", 250, 2000), ("wild", 0, 1500)]})],
         "rule": "random histories of the real gateway under the harness scheduler (every connection task, cache task and hooked goroutine "
                 "granted one at a time): 2 clients, 3-4 resources with reference graphs (sharing, cycles, self references), "
                 "subscribe/unsubscribe/get, service change/add/remove/custom events made unique by a fresh tag, answers in any order; "
@@ -110,7 +110,7 @@ PROPS = {
         "coq": ["Props/C03.v"],
         "level": "proof",
         "harness": ["gwrun"],
-        "stages": [("gw", stage_gw, {"profiles": [("basic", 200, 2000), ("refs", 300, 3000), ("churn", 300, 3000), ("access", 250, 2000), ("scacc", 250, 2000), ("reset", 300, 2000), ("accrefs", 200, 1500), ("legacy", 200, 1500), ("scgraph", 250, 2000), ("wild", 0, 1500)]})],
+        "stages": [("gw", stage_gw, {"profiles": [("basic", 200, 2000), ("refs", 300, 3000), ("churn", 300, 3000), ("access", 250, 2000), ("scacc", 250, 2000), ("reset", 300, 2000), ("accrefs", 200, 1500), ("legacy", 200, 1500), ("scgraph", 250, 2000), ("resetf", 300, 2500), ("wild", 0, 1500)]})],
         "rule": "as C01; every service event carries a unique tag; per client and resource the delivered events must be a contiguous run "
                 "of the service stream (candidate-position tracking, no false alarm on repeated identical events), nothing missing at quiescence",
         "assumptions": ["no resets/query events in this stage (superseded events are not exercised)"],
@@ -135,7 +135,7 @@ PROPS = {
         "coq": ["Props/C08.v"],
         "level": "proof",
         "harness": ["gwrun"],
-        "stages": [("gw", stage_gw, {"profiles": [("basic", 300, 2500), ("churn", 400, 3000), ("access", 250, 2000), ("scacc", 250, 2000), ("accrefs", 200, 1500), ("reset", 200, 1500), ("gets", 0, 1500), ("wild", 0, 1500)]})],
+        "stages": [("gw", stage_gw, {"profiles": [("basic", 300, 2500), ("churn", 400, 3000), ("access", 250, 2000), ("scacc", 250, 2000), ("accrefs", 200, 1500), ("reset", 200, 1500), ("sclimit", 4, 20), ("gets", 0, 1500), ("wild", 0, 1500)]})],
         "rule": "as C01 with unsubscribe counts (absent, 0, negative, 1..3) and failing gets; ledger driven only by observable successes predicts every "
                 "unsubscribe outcome and is compared with the gateway's own direct counts (introspection) at every quiescent point",
         "assumptions": [],
